@@ -59,8 +59,8 @@ func (c *c19) ID() string { return "C19" }
 func (c *c19) Phases(tier string) []PhaseSpec {
 	if tier == "thorough" {
 		return []PhaseSpec{
-			{Name: "plain", Runs: 1500000, Note: "seeded schedules, value/monitor/deadlock oracles"},
-			{Name: "race", Runs: 150000, Race: true, Note: "same generator under the Go race detector"},
+			{Name: "plain", Runs: 600000, Note: "seeded schedules, value/monitor/deadlock oracles"},
+			{Name: "race", Runs: 100000, Race: true, Note: "same generator under the Go race detector"},
 			{Name: "pairsweep", Runs: 0, Sweep: true, Note: "every single preemption on each of the first access/lock events for every ordered pair of regex programs"},
 			{Name: "cold", Runs: 4000, Cold: true, Note: "one fresh process per run: the first vore calls of the process are concurrent"},
 			{Name: "coldrace", Runs: 1000, Race: true, Cold: true, Note: "cold starts under the race detector"},
